@@ -407,6 +407,7 @@ def _cleanup_touched(model, touched):
                 break
         if fold_pointer_null_tests(f):
             propagate_copies(f)
+        restore_loop_conditions(f)
     model._callgraph = None
 
 
@@ -1678,6 +1679,118 @@ def fold_pointer_null_tests(f):
                 if v is not None:
                     ch[i] = kids(c)[1] if v else kids(c)[2]
                     changed = True
+    return changed
+
+
+def restore_loop_conditions(f):
+    """The inliner turns `while (helper(a)) B` into `for (;;) { <helper body>; if (!R) break; B }`.  Where the helper body is
+    pure declarations followed by `if (A) R = K; else R = E;` (K a 0 / 1 literal, A and E pure) the loop gets its condition
+    back: `while (<A, K, E combined with && / ||>) B`, with the helper's parameter copies substituted."""
+    changed = False
+    for x in walk(f.body):
+        ch = x.get("inner") or []
+        for i, lp in enumerate(ch):
+            if lp["kind"] == "ForStmt":
+                parts = kids(lp)
+                if len(parts) != 5 or not (parts[0]["kind"] == "Null" and _is_true_const(parts[2]) and parts[3]["kind"] == "Null"):
+                    continue
+                body = parts[4]
+            elif lp["kind"] == "WhileStmt" and _is_true_const(kids(lp)[0]):
+                body = kids(lp)[1]
+            else:
+                continue
+            if body["kind"] != "CompoundStmt":
+                continue
+            st = kids(body)
+            k = 0
+            subst = {}           # id -> initialiser (pure) of a leading declaration
+            flag_ids = set()
+            while k < len(st) and st[k]["kind"] == "DeclStmt":
+                okd = True
+                for vd in kids(st[k]):
+                    if vd["kind"] != "VarDecl":
+                        okd = False
+                    elif kids(vd):
+                        if not _pure_expr(kids(vd)[0]):
+                            okd = False
+                        else:
+                            subst[vd["id"]] = kids(vd)[0]
+                    else:
+                        flag_ids.add(vd["id"])
+                if not okd:
+                    break
+                k += 1
+            if k >= len(st) - 1:
+                continue
+            expr = None
+            fid = None
+            s0 = st[k]
+            if s0["kind"] == "IfStmt" and len(kids(s0)) == 3:
+                a_c = kids(s0)[0]
+                def single_assign(b_):
+                    b0 = b_
+                    if b0["kind"] == "CompoundStmt" and len(kids(b0)) == 1:
+                        b0 = kids(b0)[0]
+                    if b0["kind"] == "BinaryOperator" and b0.get("opcode") == "=":
+                        l_ = strip(kids(b0)[0], casts=True)
+                        if l_["kind"] == "DeclRefExpr":
+                            return l_["ref"]["id"], kids(b0)[1]
+                    return None, None
+                i1, v1 = single_assign(kids(s0)[1])
+                i2, v2 = single_assign(kids(s0)[2])
+                # A, then E only if A did not decide: the order and the number of evaluations are those of the statements
+                if i1 is not None and i1 == i2 and i1 in flag_ids:
+                    k1, k2 = _const_value(v1), _const_value(v2)
+                    def mk(op, l_, r_):
+                        return _mk("BinaryOperator", [l_, r_], opcode=op, type="int", file=s0.get("file"), line=s0.get("line"))
+                    def par(e_):
+                        return _mk("ParenExpr", [e_], type=e_.get("type"), file=s0.get("file"), line=s0.get("line"))
+                    if k1 == 0:
+                        expr = mk("&&", _negate(copy.deepcopy(a_c)), par(v2))
+                    elif k1 == 1:
+                        expr = mk("||", par(copy.deepcopy(a_c)), par(v2))
+                    elif k2 == 0:
+                        expr = mk("&&", par(copy.deepcopy(a_c)), par(v1))
+                    elif k2 == 1:
+                        expr = mk("||", _negate(copy.deepcopy(a_c)), par(v1))
+                    fid = i1
+            elif s0["kind"] == "BinaryOperator" and s0.get("opcode") == "=":
+                l_ = strip(kids(s0)[0], casts=True)
+                if l_["kind"] == "DeclRefExpr" and l_["ref"]["id"] in flag_ids:
+                    expr, fid = kids(s0)[1], l_["ref"]["id"]
+            if expr is None:
+                continue
+            g = st[k + 1]
+            if not (g["kind"] == "IfStmt" and len(kids(g)) == 2 and _only_break(kids(g)[1])):
+                continue
+            gc = strip(kids(g)[0], casts=True)
+            if not (gc["kind"] == "UnaryOperator" and gc.get("opcode") == "!" and
+                    strip(kids(gc)[0], casts=True).get("ref", {}).get("id") == fid):
+                continue
+            rest = st[k + 2:]
+            # the flag and the substituted copies must not be used in the rest of the body
+            used_later = any(y["kind"] == "DeclRefExpr" and y.get("ref", {}).get("id") in (set(subst) | {fid}) for r_ in rest for y in walk(r_))
+            cond = copy.deepcopy(expr)
+            # substitute the leading declarations into the condition (repeat for chains)
+            for _ in range(4):
+                for holder in walk({"kind": "X", "inner": [cond]}):
+                    chh = holder.get("inner") or []
+                    for j, c_ in enumerate(chh):
+                        if c_["kind"] == "DeclRefExpr" and c_.get("ref", {}).get("id") in subst:
+                            chh[j] = _mk("ParenExpr", [copy.deepcopy(subst[c_["ref"]["id"]])], type=c_.get("type"))
+                if cond["kind"] == "DeclRefExpr" and cond.get("ref", {}).get("id") in subst:
+                    cond = copy.deepcopy(subst[cond["ref"]["id"]])
+            if used_later:
+                # keep the declarations for the rest of the body; they are pure, so evaluating them again there is the same
+                nb_inner = st[:k] + rest
+            else:
+                nb_inner = rest
+            nb = dict(body)
+            nb["inner"] = nb_inner
+            if any(y["kind"] == "DeclRefExpr" and y.get("ref", {}).get("id") == fid for r_ in nb_inner for y in walk(r_)):
+                continue
+            ch[i] = _mk("WhileStmt", [cond, nb], file=lp.get("file"), line=lp.get("line"), col=lp.get("col"))
+            changed = True
     return changed
 
 
